@@ -1,4 +1,5 @@
 import RsddModel.Model.GenOrders
+import RsddModel.Props.C14
 /-!
 # Tie to the source text (translator route): `VarOrder` (src/repr/var_order.rs)
 
@@ -110,6 +111,34 @@ theorem below_level (o : VarOrder) (a : Nat) (v : Nat) (hinv : ∀ l, l < o.posT
   · cases h
     rw [hinv _ (by omega)]
 
+/-! ## the order clauses of C14, stated for the definitions regenerated from the source text -/
+
+/-- `VarOrder::new` (as the source says now) of a permutation is a permutation in both
+directions and its two maps — read through the regenerated accessors `get` / `var_at_level` —
+are mutually inverse -/
+theorem new_inverse_source {order : List Nat} {n : Nat} (h : order.Perm (List.range n)) :
+    (Gen.Orders.new order).posToVar.Perm (List.range n) ∧ (Gen.Orders.new order).varToPos.Perm (List.range n) ∧
+    (∀ i, i < n → Gen.Orders.get (Gen.Orders.new order) (Gen.Orders.varAtLevel (Gen.Orders.new order) i) = i) ∧
+    (∀ v, v < n → Gen.Orders.varAtLevel (Gen.Orders.new order) (Gen.Orders.get (Gen.Orders.new order) v) = v) := by
+  rw [new_tie, get_tie, varAtLevel_tie]
+  exact C14.order_inverse (C14.Produced.new h)
+
+/-- the same for `linear_order(n)` -/
+theorem linear_inverse_source (n : Nat) :
+    (Gen.Orders.linear n).posToVar.Perm (List.range n) ∧ (Gen.Orders.linear n).varToPos.Perm (List.range n) ∧
+    (∀ i, i < n → Gen.Orders.get (Gen.Orders.linear n) (Gen.Orders.varAtLevel (Gen.Orders.linear n) i) = i) ∧
+    (∀ v, v < n → Gen.Orders.varAtLevel (Gen.Orders.linear n) (Gen.Orders.get (Gen.Orders.linear n) v) = v) := by
+  rw [linear_tie, get_tie, varAtLevel_tie]
+  exact C14.order_inverse (C14.Produced.linear n)
+
+/-- run-time extension as the source says now: the fresh label is `n`, the extended order is
+again a permutation with inverse maps, and `lt` is the comparison of levels -/
+theorem newLast_source {o : VarOrder} {n : Nat} (h : o.WF n) :
+    (Gen.Orders.newLast o).1.WF (n + 1) ∧ (Gen.Orders.newLast o).2 = n ∧
+    ∀ a b, Gen.Orders.lt o a b = decide (Gen.Orders.get o a < Gen.Orders.get o b) := by
+  rw [newLast_tie, lt_tie, get_tie]
+  exact ⟨(C14.newLast_perm h).1, (C14.newLast_perm h).2, fun a b => rfl⟩
+
 -- non-vacuity: the linear order on three variables
 example : Gen.Orders.above (VarOrder.linear 3) 2 = some 1 ∧ Gen.Orders.below (VarOrder.linear 3) 2 = none
     ∧ Gen.Orders.lastVar (VarOrder.linear 3) = 2 := by decide
@@ -126,6 +155,9 @@ example : Gen.Orders.above (VarOrder.linear 3) 2 = some 1 ∧ Gen.Orders.below (
 #print axioms inOrder_tie
 #print axioms new_tie
 #print axioms linear_tie
+#print axioms new_inverse_source
+#print axioms linear_inverse_source
+#print axioms newLast_source
 #print axioms above_level
 #print axioms below_level
 end TieOrders
